@@ -103,7 +103,7 @@ def check_chunk(args):
             tg = tags_of(case)
             stats["evals"] += 1
             try:
-                cb = CodeBase(root, root + "-legacy", exclude_patterns=["excl/"])
+                cb = CodeBase(root, root + "-legacy", exclude_patterns=["/excl/"])   # anchored at each code-base directory
                 got = report.find_duplicates(cb)
                 got_sets = {frozenset(inv.get(os.path.abspath(str(p)), str(p)) for p in g) for g in got}
                 buf, out = io.StringIO(), io.StringIO()
